@@ -2,6 +2,7 @@
 
 mod astx;
 mod bcmc;
+mod cliprof;
 mod common;
 mod compose;
 mod gcprog;
